@@ -258,6 +258,13 @@ def tx_mutations(rng, t, is_cb):
     m('vout-empty', lambda c: c.__setitem__(2, []))
     for v in (-1, 0, MAX_MONEY, MAX_MONEY + 1, (1 << 63) - 1, -(1 << 63)):
         m('value%+d' % v, lambda c, v=v: c.__setitem__(2, [[v, c[2][0][1]]] + [[0, o[1]] for o in c[2][1:]]))
+    # "every output value AND every running total": a negative value in any position, with running
+    # totals that stay inside the money range; a too-large value whose running total is pulled back
+    m('neg-after-pos', lambda c: c.__setitem__(2, [[100000000, b'\x51'], [-1, b'\x51']]))
+    m('neg-cancels', lambda c: c.__setitem__(2, [[5, b'\x51'], [-5, b'\x51'], [7, b'']]))
+    m('neg-last-of-three', lambda c: c.__setitem__(2, [[MAX_MONEY - 1, b'\x51'], [1, b'\x51'], [-MAX_MONEY, b'']]))
+    m('neg-first-then-pos', lambda c: c.__setitem__(2, [[-3, b'\x51'], [10, b'\x51']]))
+    m('over-then-neg', lambda c: c.__setitem__(2, [[MAX_MONEY + 1, b'\x51'], [-1, b'\x51']]))
     m('total=MAX', lambda c: c.__setitem__(2, [[MAX_MONEY - 5, b'\x51'], [5, b'\x51']]))
     m('total=MAX+1', lambda c: c.__setitem__(2, [[MAX_MONEY - 5, b'\x51'], [6, b'\x51']]))
     m('total=MAX+1-mid', lambda c: c.__setitem__(2, [[MAX_MONEY, b'\x51'], [1, b'\x51'], [0, b'']]))
